@@ -236,7 +236,8 @@ class Module:
             setname = self.ioc_sets[json.dumps(t["comps"][1]["t"], sort_keys=True)]
             idn, valn = t["comps"][0]["n"], t["comps"][1]["n"]
             cls = "VCLO" if t["comps"][1]["t"]["comps"][0]["oid"] else "VCLS"
-            return "SEQUENCE {\n    %s %s.&id({%s}),\n    %s %s.&Type({%s}{@%s})\n}" % (idn, cls, setname, valn, cls, setname, idn)
+            return "SEQUENCE {\n    %s %s.&id({%s}),\n    %s %s.&Type({%s}{@%s})%s\n}" % (
+                idn, cls, setname, valn, cls, setname, idn, " OPTIONAL" if t["comps"][1]["o"] == "O" else "")
         if k in ("SEQUENCE", "SET", "CHOICE"):
             return k + " " + self.comp_list(t, ind)
         if k in ("SEQOF", "SETOF"):
